@@ -3,3 +3,6 @@ import JT.Model.Frame
 import JT.Proof.Bytes
 import JT.Proof.Frame
 import JT.Props.C01
+import JT.Spec.Frame
+import JT.Proof.FrameSpec
+import JT.Props.C02
